@@ -48,6 +48,11 @@ pub struct Sim {
     commits_seen: u64,
     /// permit explicit out-of-memory errors (C12 with tiny caches)
     pub allow_oom: bool,
+    /// reproducer of finding D26 only
+    pub allow_d26: bool,
+    /// set when the model could not predict a statement that the engine then executed: the run
+    /// stops there (no verdict on anything later)
+    pub halted: bool,
 }
 
 fn outcome_line(o: &Out) -> String {
@@ -62,7 +67,7 @@ impl Sim {
         let eng = Eng::create(dir, cfg)?;
         let mut stats = RunStats::default();
         stats.fingerprint = 0xcbf29ce484222325;
-        Ok(Sim { eng, model: Model::new(), txmap: BTreeMap::new(), stats, began_at: BTreeMap::new(), commits_seen: 0, allow_oom: false })
+        Ok(Sim { eng, model: Model::new(), txmap: BTreeMap::new(), stats, began_at: BTreeMap::new(), commits_seen: 0, allow_oom: false, allow_d26: false, halted: false })
     }
 
     fn viol(&self, oracle: &str, i: usize, detail: String) -> Violation {
@@ -113,6 +118,9 @@ impl Sim {
                 self.stats.log(format!("{i} {} => {}", ev.short(), outcome_line(&out)));
                 self.stats.bump(if stmt.is_read() { "auto_reads" } else { "auto_writes" });
                 let res = self.compare(i, &exp, &out);
+                if exp == Expect::Any && !out.is_err() && !matches!(stmt, Stmt::Raw(_)) {
+                    self.halted = true;
+                }
                 if !out.is_err() && res.is_ok() {
                     self.model.run(tx, stmt, true);
                     self.model.commit(tx);
@@ -134,6 +142,13 @@ impl Sim {
                 let mut fails = false;
                 for s in stmts {
                     let e = m2.run(tx, s, false);
+                    if e == Expect::Any {
+                        // unpredictable: execute it, then stop judging this run
+                        let sqls: Vec<String> = stmts.iter().map(|s| s.sql()).collect();
+                        let _ = self.eng.batch(&sqls);
+                        self.halted = true;
+                        return Ok(());
+                    }
                     if matches!(e, Expect::Fail(_)) {
                         fails = true;
                         break;
@@ -182,6 +197,13 @@ impl Sim {
                 }
             }
             Event::Begin(k) => {
+                // Open finding D26: a session begun before two write transactions have committed has
+                // no upper bound on its snapshot. Such a Begin is ignored (the session never exists), so
+                // neither generation nor minimisation can slip into that finding.
+                if self.commits_seen < 2 && !self.allow_d26 {
+                    self.stats.bump("begin_ignored_before_warm_up");
+                    return Ok(());
+                }
                 let out = self.eng.begin(*k);
                 self.stats.log(format!("{i} {} => {}", ev.short(), outcome_line(&out)));
                 if out.is_err() {
@@ -210,6 +232,9 @@ impl Sim {
                     self.stats.bump("session_writes");
                 }
                 let res = self.compare(i, &exp, &out);
+                if exp == Expect::Any && !out.is_err() && !matches!(stmt, Stmt::Raw(_)) {
+                    self.halted = true;
+                }
                 if !out.is_err() && res.is_ok() {
                     self.model.run(tx, stmt, true);
                 } else if out.is_err() {
@@ -368,6 +393,10 @@ impl Sim {
         for (i, ev) in events.iter().enumerate() {
             if let Err(v) = self.step(i, ev) {
                 return Some(v);
+            }
+            if self.halted {
+                self.stats.bump("runs_halted_unpredictable");
+                break;
             }
         }
         None
